@@ -85,6 +85,12 @@ type Step struct {
 	Now    int64  `json:"now,omitempty"`
 	Burst  int    `json:"burst,omitempty"`
 	Gate   int    `json:"gate,omitempty"`
+	// Rows (step "aclset"): the operator replaces the ACL table
+	Rows []ACLRow `json:"rows,omitempty"`
+	// Trig (poll steps): what the client sends as the trigger, whose contents the
+	// server must ignore: 0 a Poll message, 1 the Subscribe request again, 2 a
+	// request with no oneof set.
+	Trig int `json:"trig,omitempty"`
 	// IdleMS: the client stays idle for at least this long (the subscriber being
 	// quiescent) before the step is executed.  A no-op for the model.
 	IdleMS int `json:"idle_ms,omitempty"`
@@ -258,9 +264,20 @@ func projNoti(n *pb.Notification) (Noti, uint32) {
 
 type userKey struct{}
 
-type fakeACL struct{ rows []ACLRow }
+type fakeACL struct {
+	mu   sync.Mutex
+	rows []ACLRow
+}
+
+func (a *fakeACL) set(rows []ACLRow) {
+	a.mu.Lock()
+	a.rows = rows
+	a.mu.Unlock()
+}
 
 func (a *fakeACL) Check(user, dev string) bool {
+	a.mu.Lock()
+	defer a.mu.Unlock()
 	for _, r := range a.rows {
 		if r.User == user && r.Target == dev && r.Allow {
 			return true
@@ -643,10 +660,10 @@ func normaliseBursts(ops []Step) {
 // serverOptions: the option list NewServer is called with.  WithoutDupReport
 // is the one exported option left out: it removes the duplicate counts the
 // comparison of coalesced responses relies on.
-func serverOptions(c *Case, withACL bool) []subscribe.Option {
+func serverOptions(c *Case, withACL bool, acl *fakeACL) []subscribe.Option {
 	var opts []subscribe.Option
 	if withACL && c.HasACL {
-		opts = append(opts, subscribe.WithACL(&fakeACL{rows: c.ACL}))
+		opts = append(opts, subscribe.WithACL(acl))
 	}
 	if c.TimeoutMS > 0 {
 		opts = append(opts, subscribe.WithTimeout(time.Duration(c.TimeoutMS)*time.Millisecond))
@@ -712,6 +729,56 @@ func addNoise(r *vh.Rand, c *Case) {
 	if r.Chance(1, 3) {
 		c.Build = r.U64() | 1
 	}
+	for i := range c.Ops {
+		if c.Ops[i].K == "poll" && r.Chance(1, 5) {
+			c.Ops[i].Trig = 1 + r.Intn(2)
+		}
+	}
+}
+
+// cacheOptions: with Case.Build the cache is constructed with nil options and
+// options that do not change how data is stored (anything else is not the
+// default cache this model describes).
+func cacheOptions(c *Case) []cache.Option {
+	if c.Build == 0 {
+		return nil
+	}
+	r := vh.NewRand(c.Build ^ 0xcac4e)
+	var opts []cache.Option
+	if r.Chance(1, 2) {
+		opts = append(opts, cache.WithServerName("srv"))
+	}
+	if r.Chance(1, 2) {
+		opts = append(opts, cache.WithAvgLatencyPrecision(time.Millisecond))
+	}
+	if r.Chance(1, 2) {
+		opts = append(opts, cache.WithExcludedMeta([]string{"x"}))
+	}
+	if r.Chance(1, 2) {
+		opts = append(opts, cache.WithFutureThreshold(time.Hour))
+	}
+	for k := r.Intn(3); k >= 0; k-- {
+		opts = append(opts, nil)
+	}
+	for i := len(opts) - 1; i > 0; i-- {
+		j := r.Intn(i + 1)
+		opts[i], opts[j] = opts[j], opts[i]
+	}
+	return opts
+}
+
+func op0(members []Step) Step { return members[0] }
+
+func trigger(op Step, rq *Req) *pb.SubscribeRequest {
+	switch op.Trig {
+	case 1:
+		if rq != nil {
+			return pbRequest(rq)
+		}
+	case 2:
+		return &pb.SubscribeRequest{}
+	}
+	return &pb.SubscribeRequest{Request: &pb.SubscribeRequest_Poll{Poll: &pb.Poll{}}}
 }
 
 func opTarget(op Step) string {
@@ -731,8 +798,9 @@ func runScript(c *Case, withACL bool) []*Run {
 		defer atomic.StoreInt32(&perturb, 0)
 	}
 	cache.Now = func() time.Time { return time.Unix(0, fakeNow) }
-	ca := cache.New(c.Targets)
-	srv, _ := subscribe.NewServer(ca, serverOptions(c, withACL)...)
+	ca := cache.New(c.Targets, cacheOptions(c)...)
+	acl := &fakeACL{rows: c.ACL}
+	srv, _ := subscribe.NewServer(ca, serverOptions(c, withACL, acl)...)
 	ca.SetClient(srv.Update)
 
 	// both callers arrive from the same peer address
@@ -780,6 +848,8 @@ func runScript(c *Case, withACL bool) []*Run {
 		case "churn":
 			ca.Remove(op.Target)
 			ca.Add(op.Target)
+		case "aclset":
+			acl.set(op.Rows)
 		}
 	}
 	startRPC := func(r *rpc) {
@@ -884,7 +954,7 @@ func runScript(c *Case, withACL bool) []*Run {
 			case members[0].K == "sub" && !rpcs[0].started:
 				startRPC(rpcs[0])
 			case members[0].K == "poll" && walk:
-				rpcs[0].st.reqs <- &pb.SubscribeRequest{Request: &pb.SubscribeRequest_Poll{Poll: &pb.Poll{}}}
+				rpcs[0].st.reqs <- trigger(op0(members), rpcs[0].req)
 			}
 			writersDone := make(chan struct{})
 			go func() { wg.Wait(); close(writersDone) }()
@@ -911,7 +981,7 @@ func runScript(c *Case, withACL bool) []*Run {
 		}
 		ob := OObs{CRes: "ok"}
 		switch op.K {
-		case "update", "remove", "addtarget", "churn":
+		case "update", "remove", "addtarget", "churn", "aclset":
 			applyCache(op, &ob)
 		case "sub":
 			if !rpcs[0].started {
@@ -925,7 +995,7 @@ func runScript(c *Case, withACL bool) []*Run {
 			ob.HasDump = true
 		case "poll":
 			if r := rpcs[0]; r.started && !r.closedReqs && !r.returned() {
-				r.st.reqs <- &pb.SubscribeRequest{Request: &pb.SubscribeRequest_Poll{Poll: &pb.Poll{}}}
+				r.st.reqs <- trigger(op, r.req)
 			}
 			ob.HasDump = true
 		}
@@ -1087,6 +1157,12 @@ func (f *caseFile) step(s Step) string {
 		return "SCache (CUpdate " + f.noti(s.N) + ")"
 	case "remove":
 		return fmt.Sprintf("SCache (CRemove %s %s)", f.names.Ref(s.Target), vh.Z(s.Now))
+	case "aclset":
+		rows := make([]string, len(s.Rows))
+		for i, r := range s.Rows {
+			rows[i] = fmt.Sprintf("(%s, %s, %s)", f.names.Ref(r.User), f.names.Ref(r.Target), vh.Bool(r.Allow))
+		}
+		return "SAcl " + vh.List(rows)
 	case "addtarget":
 		return "SCache (CAdd " + f.names.Ref(s.Target) + ")"
 	case "churn":
@@ -1414,6 +1490,9 @@ var schema = [][]Elem{
 	{el("b"), el("c"), el("a"), el("b")},
 	// sibling names / key values one of which is a string prefix of the other
 	{el("a"), el("bb")}, {el("b", "k", "10"), el("a")},
+	// an empty key value, an empty element name, a name containing the separator,
+	// a literal "*" as a stored name
+	{el("b", "k", ""), el("a")}, {el(""), el("a")}, {el("a/b"), el("c")}, {el("c"), el("*")},
 }
 
 // containers stored as one atomic leaf
@@ -1593,6 +1672,9 @@ func (g *gen) cacheStep(targets []string, pathOrigins bool, allowRemove bool) St
 	if allowRemove && g.r.Chance(1, 25) {
 		g.ts++
 		return Step{K: "remove", Target: t, Now: g.ts}
+	}
+	if g.r.Chance(1, 40) {
+		return Step{K: "addtarget", Target: t} // Cache.Add of an existing target: a fresh, empty one
 	}
 	if g.r.Chance(1, 60) {
 		t = "tx" // unknown target: GnmiUpdate returns an error
